@@ -126,6 +126,28 @@ func genScenario(t *rapid.T) *modsim.Scenario {
 		sc.Steps = []modsim.Step{{Op: "start"}, {Op: "launch", Mods: []string{"m0", "m1"}}, {Op: "sleep", US: rapid.SampledFrom([]int{2000, 20000}).Draw(t, "slotsleep")}, {Op: "shutdown"}, {Op: "poststop", Mods: []string{"m0", "m1"}}}
 		return sc
 	}
+	if rapid.IntRange(0, 119).Draw(t, "slowchain") == 61 {
+		// a chain of modules whose work needs a good part of the stop timeout to return - each item well inside the
+		// timeout, all of them together beyond it: every module gets the whole timeout of its own
+		n := rapid.IntRange(4, 5).Draw(t, "chain")
+		sc.Modules = nil
+		sc.StopTimeoutMS = 1500
+		for i := 0; i < n; i++ {
+			m := modsim.Module{Name: fmt.Sprintf("m%d", i)}
+			if i > 0 {
+				m.Deps = []string{fmt.Sprintf("m%d", i-1)}
+			}
+			m.Work = []modsim.Work{{ID: i + 1, Kind: rapid.SampledFrom([]string{"startworker", "service", "start_mt_med"}).Draw(t, "slowkind"), Mode: "waitctx", DelayUS: 500000}}
+			sc.Modules = append(sc.Modules, m)
+		}
+		var names []string
+		for _, m := range sc.Modules {
+			names = append(names, m.Name)
+		}
+		sc.SlowItems = true
+		sc.Steps = []modsim.Step{{Op: "start"}, {Op: "launch", Mods: names}, {Op: "shutdown"}, {Op: "poststop", Mods: names}}
+		return sc
+	}
 	if rapid.IntRange(0, 5).Draw(t, "retrycase") == 0 {
 		// a start routine that launches part of its work itself and then fails; the module is started again by the next
 		// management pass (the work of the failed attempt must be cancelled by then) and finally stopped
@@ -224,6 +246,12 @@ func TestPropStopWaitsForWork(t *testing.T) {
 		sc := genScenario(t)
 		t0 := time.Now()
 		res := runAndJudge(t, sc)
+		if d := time.Since(t0); d > time.Second {
+			if os.Getenv("C05_TIMING") != "" {
+				b, _ := json.Marshal(sc)
+				fmt.Fprintf(os.Stderr, "C05 slow case %.1fs: %s\n", d.Seconds(), b)
+			}
+		}
 		if d := time.Since(t0); d > 5*time.Second {
 			stats.Class("slow_case_over_5s")
 			stats.Sample("slow_case", map[string]any{"seconds": d.Seconds(), "scenario": sc, "events": modsim.RenderEvents(res.Events, 80)})
